@@ -22,6 +22,7 @@ import (
 	"Havoc/pkg/common/parser"
 	"Havoc/pkg/logger"
 	"Havoc/pkg/logr"
+	"Havoc/pkg/verifhook"
 
 	"github.com/fatih/structs"
 )
@@ -653,6 +654,7 @@ func (a *Agent) AddJobToQueue(job Job) []Job {
 		a.PivotAddJob(job)
 		// if it's a direct agent add the job to the direct agent
 	} else {
+		verifhook.Point("queue.add")
 		a.JobQueue = append(a.JobQueue, job)
 	}
 	return a.JobQueue
@@ -731,6 +733,7 @@ func (a *Agent) GetQueuedJobs() []Job {
 	}
 
 	// return NumJobs and leave the rest on the JobQueue
+	verifhook.Point("queue.get.writeback")
 	Jobs, a.JobQueue = a.JobQueue[:NumJobs], a.JobQueue[NumJobs:]
 
 	return Jobs
